@@ -212,6 +212,18 @@ func runCase(w *harness.W, c caseT) {
 			}
 			vx.Render()
 		case "suspend-resume":
+			// an application that suspends itself is running its event
+			// loop: what is queued is read first (Suspend with a full queue
+			// is the open finding about shutdown and the event queue, judged
+			// at the trigger, not here)
+			for quiet := 0; quiet < 3; {
+				select {
+				case <-vx.Events():
+					quiet = 0
+				case <-time.After(5 * time.Millisecond):
+					quiet++
+				}
+			}
 			vx.Suspend()
 			var mid map[string]string
 			con.With(func() { mid = t.ModeTable() })
